@@ -13,26 +13,25 @@ open Biogo.Proofs.AffineOpt Biogo.Proofs.AlignAffTable Biogo.Proofs.TraceSum Bio
 open Biogo.Proofs.TraceWF Biogo.Proofs.TraceFaith
 
 /-- first row of the table: `left` layer = gap-open + the gap scores of the query prefix -/
-theorem nw_row0_l (S : Matrix) (o : Int) (r q : List Nat) :
-    ∀ j, j < q.length → ((nwTable S o r q).at 0 (j + 1)).l = some (o + leftSum S q 0 (j + 1)) ∧
-      ((nwTable S o r q).at 0 (j + 1)).d = none := by
+theorem nw_row0_l (cross : Bool) (S : Matrix) (o : Int) (r q : List Nat) :
+    ∀ j, j < q.length → ((nwTable cross S o r q).at 0 (j + 1)).l = some (o + leftSum S q 0 (j + 1)) ∧
+      ((nwTable cross S o r q).at 0 (j + 1)).d = none ∧ ((nwTable cross S o r q).at 0 (j + 1)).u = none := by
   intro j
   induction j with
   | zero =>
     intro hj
-    rw [nwTable_at S o r q 0 1 (by omega), optRows_row0 flN S o r q 0 hj, optRows_origin]
-    refine ⟨?_, by simp [flN, emptyAt]⟩
-    simp only [gapVal_flN, origin, vadd]
+    rw [nwTable_at cross S o r q 0 1 (by omega), optRows_row0 (flN cross) S o r q 0 hj, optRows_origin]
+    refine ⟨?_, by simp [flN, emptyAt], rfl⟩
+    simp only [origin, gapVal_some_none_none]
     rw [leftSum_succ]
-    simp [leftSum, sumRange_zero, max2, vgt]
+    simp [leftSum, sumRange_zero]
   | succ j ih =>
     intro hj
-    obtain ⟨hl, hd⟩ := ih (by omega)
-    rw [nwTable_at S o r q 0 (j + 1) (by omega)] at hl hd
-    rw [nwTable_at S o r q 0 (j + 2) (by omega), optRows_row0 flN S o r q (j + 1) hj]
-    refine ⟨?_, by simp [flN, emptyAt]⟩
-    simp only [gapVal_flN, hl, hd, vadd]
-    rw [max2_none_left]
+    obtain ⟨hl, hd, hu⟩ := ih (by omega)
+    rw [nwTable_at cross S o r q 0 (j + 1) (by omega)] at hl hd hu
+    rw [nwTable_at cross S o r q 0 (j + 2) (by omega), optRows_row0 (flN cross) S o r q (j + 1) hj]
+    refine ⟨?_, by simp [flN, emptyAt], rfl⟩
+    simp only [hl, hd, hu, gapVal_none_none, vadd]
     have : leftSum S q 0 (j + 1 + 1) = leftSum S q 0 (j + 1) + S 0 (q.getD (j + 1) 0) := by
       simp only [leftSum]; rw [sumRange_succ_last]; simp
     rw [this]
@@ -45,66 +44,56 @@ theorem optRows_first (fl : Flags) (S : Matrix) (o : Int) (r q : List Nat) (i : 
   exact rows_first _ _ q r _ i hi
 
 /-- first column of the table: `up` layer = gap-open + the gap scores of the reference prefix -/
-theorem nw_col0_u (S : Matrix) (o : Int) (r q : List Nat) :
-    ∀ i, i < r.length → ((nwTable S o r q).at (i + 1) 0).u = some (o + upSum S r 0 (i + 1)) ∧
-      ((nwTable S o r q).at (i + 1) 0).d = none := by
+theorem nw_col0_u (cross : Bool) (S : Matrix) (o : Int) (r q : List Nat) :
+    ∀ i, i < r.length → ((nwTable cross S o r q).at (i + 1) 0).u = some (o + upSum S r 0 (i + 1)) ∧
+      ((nwTable cross S o r q).at (i + 1) 0).d = none ∧ ((nwTable cross S o r q).at (i + 1) 0).l = none := by
   intro i
   induction i with
   | zero =>
     intro hi
-    rw [nwTable_at S o r q 1 0 (by omega), optRows_first flN S o r q 0 hi, optRows_origin]
-    refine ⟨?_, by simp [optFirst, flN, emptyAt]⟩
-    simp only [optFirst, gapVal_flN, origin, vadd]
+    rw [nwTable_at cross S o r q 1 0 (by omega), optRows_first (flN cross) S o r q 0 hi, optRows_origin]
+    refine ⟨?_, by simp [optFirst, flN, emptyAt], rfl⟩
+    simp only [optFirst, origin, gapVal_some_none_none]
     rw [upSum_succ]
-    simp [upSum, sumRange_zero, max2, vgt]
+    simp [upSum, sumRange_zero]
   | succ i ih =>
     intro hi
-    obtain ⟨hu, hd⟩ := ih (by omega)
-    rw [nwTable_at S o r q (i + 1) 0 (by omega)] at hu hd
-    rw [nwTable_at S o r q (i + 2) 0 (by omega), optRows_first flN S o r q (i + 1) hi]
-    refine ⟨?_, by simp [optFirst, flN, emptyAt]⟩
-    simp only [optFirst, gapVal_flN, hu, hd, vadd]
-    rw [max2_none_left]
+    obtain ⟨hu, hd, hl⟩ := ih (by omega)
+    rw [nwTable_at cross S o r q (i + 1) 0 (by omega)] at hu hd hl
+    rw [nwTable_at cross S o r q (i + 2) 0 (by omega), optRows_first (flN cross) S o r q (i + 1) hi]
+    refine ⟨?_, by simp [optFirst, flN, emptyAt], rfl⟩
+    simp only [optFirst, hu, hd, hl, gapVal_none_none, vadd]
     have : upSum S r 0 (i + 1 + 1) = upSum S r 0 (i + 1) + S (r.getD (i + 1) 0) 0 := by
       simp only [upSum]; rw [sumRange_succ_last]; simp
     rw [this]
     congr 1; omega
 
-/-- Faithful pair scores for either switch: if the traceback of the model of `NWAffine` only
-    takes cases of its current layer, every pair's score is the recomputed one. -/
-theorem nwAlignT_faithful (aware : Bool) (S : Matrix) (o : Int) (r q : List Nat) (hr : r ≠ []) (hq : q ≠ [])
-    (ps : List Pair) (h : nwAlignT aware S o r q = .ok (ps, false)) : faithful S o r q ps = true := by
+/-- Faithful pair scores for either switch and either fill: if the traceback of the model of
+    `NWAffine` only takes cases of its current layer, every pair's score is the recomputed one. -/
+theorem nwAlignT_faithful (aware cross : Bool) (S : Matrix) (o : Int) (r q : List Nat) (hr : r ≠ []) (hq : q ≠ [])
+    (ps : List Pair) (h : nwAlignT aware cross S o r q = .ok (ps, false)) : faithful S o r q ps = true := by
   have hR : 0 < r.length := by cases r with | nil => exact absurd rfl hr | cons _ _ => simp
   have hC : 0 < q.length := by cases q with | nil => exact absurd rfl hq | cons _ _ => simp
-  have F := nwTable_facts S o r q
+  have F := nwTable_facts cross S o r q
   unfold nwAlignT at h
   simp only [] at h
-  cases hl : tbLoop aware false (nwTable S o r q) S o r q r.length q.length (r.length + q.length)
-      { i := r.length, j := q.length,
-        layer := (if vgt ((nwTable S o r q).at r.length q.length).u ((nwTable S o r q).at r.length q.length).d
-          then (if vgt ((nwTable S o r q).at r.length q.length).l ((nwTable S o r q).at r.length q.length).u then .l else .u)
-          else (if vgt ((nwTable S o r q).at r.length q.length).l ((nwTable S o r q).at r.length q.length).d then .l else .m)),
-        last := .m, score := 0, maxI := r.length, maxJ := q.length, aln := [] } with
-  | error e => rw [hl] at h; cases h
-  | ok st =>
-    rw [hl] at h
-    simp only [] at h
-    have hinv := loop_inv aware false _ S o r q r.length q.length r.length q.length _ _ st
+  split at h
+  · cases h
+  · rename_i st hl
+    have hinv := loop_inv aware cross false _ S o r q r.length q.length r.length q.length _ _ st
       (init_inv r.length q.length r.length q.length _ (Nat.le_refl _) (Nat.le_refl _)) hl
-    have hfaith := loop_faith aware false _ S o r q r.length q.length r.length q.length _ _ st
+    have hfaith := loop_faith aware cross false _ S o r q r.length q.length r.length q.length _ _ st
       (init_inv r.length q.length r.length q.length _ (Nat.le_refl _) (Nat.le_refl _))
       (fun _ => init_faith S o r q r.length q.length _ hR hC) hl
-    have hstop := loop_stops aware _ S o r q r.length q.length _ _ st hl (Nat.le_refl _)
+    have hstop := loop_stops aware cross _ S o r q r.length q.length _ _ st hl (Nat.le_refl _)
     -- the value invariant, to know the layer the loop stopped in
-    obtain ⟨x, hx⟩ : ∃ x, cellBest ((nwTable S o r q).at r.length q.length) = some x := by
+    obtain ⟨x, hx⟩ : ∃ x, cellBest ((nwTable cross S o r q).at r.length q.length) = some x := by
       obtain ⟨a, hga, hna⟩ := exists_global_noAdj r q hr hq
-      obtain ⟨x, hx, _⟩ := (globalOpt_isOpt false S o r q).1 a ⟨hga, Or.inr hna⟩
-      exact ⟨x, by rw [nwTable_at S o r q _ _ (Nat.le_refl _)]; exact hx⟩
-    have hinit : Good (nwTable S o r q) r.length q.length x
+      obtain ⟨x, hx, _⟩ := (globalOpt_isOpt cross S o r q).1 a ⟨hga, Or.inr hna⟩
+      exact ⟨x, by rw [nwTable_at cross S o r q _ _ (Nat.le_refl _)]; exact hx⟩
+    have hinit : Good (nwTable cross S o r q) r.length q.length x
         { i := r.length, j := q.length,
-          layer := (if vgt ((nwTable S o r q).at r.length q.length).u ((nwTable S o r q).at r.length q.length).d
-            then (if vgt ((nwTable S o r q).at r.length q.length).l ((nwTable S o r q).at r.length q.length).u then .l else .u)
-            else (if vgt ((nwTable S o r q).at r.length q.length).l ((nwTable S o r q).at r.length q.length).d then .l else .m)),
+          layer := bestLayer ((nwTable cross S o r q).at r.length q.length),
           last := .m, score := 0, maxI := r.length, maxJ := q.length, aln := [] } := by
       refine ⟨Nat.le_refl _, Nat.le_refl _, x, ?_, by simp [total]⟩
       simp only []
@@ -119,26 +108,38 @@ theorem nwAlignT_faithful (aware : Bool) (S : Matrix) (o : Int) (r q : List Nat)
       · rw [if_neg hij] at h; exact (Prod.mk.inj (Except.ok.inj h)).2
     have hf := hfaith htie
     obtain ⟨hi, hj, hmR, hmC, isegm, isegu, isegl, iempty0, _, _, _, _⟩ := hinv
-    -- the loop can only stop in a block
-    have hlast : st.last = .m := by
+    -- the loop stops in a block, or (since the repair of K1) in a gap run that has just been
+    -- opened from the other gap layer on the border: row 0 holds values only in the `left`
+    -- layer, column 0 only in the `up` layer
+    have hpair : pairOK S o r q ⟨st.i, st.maxI, st.j, st.maxJ, st.score⟩ = true := by
       cases hk : st.last with
-      | m => rfl
+      | m => rw [hf.segm hk]; exact pairOK_block S o r q _ _ _ _ hi (isegm hk)
       | u =>
-        exfalso
         have hj0 : st.j ≠ 0 := fun e => hf.termj e hk
         have hi0 : st.i = 0 := by rcases hstop with e | e; exact e; exact absurd e hj0
         obtain ⟨j', hj'⟩ : ∃ j', st.j = j' + 1 := ⟨st.j - 1, by omega⟩
         rw [hi0, hj'] at hv
-        exact (hf.segu hk).2.2 (F.row0 j' (by omega) _ v hv)
+        have hlay : st.layer = .l := F.row0 j' (by omega) _ v hv
+        obtain ⟨e1, e2⟩ := isegu hk
+        have e2' : st.i < st.maxI := by
+          rcases e2 with e2 | e2
+          · exact e2
+          · rw [hlay] at e2; cases e2
+        rw [(hf.segu hk).2 (by rw [hlay]; decide), ← e1]
+        exact pairOK_up S o r q _ _ _ e2'
       | l =>
-        exfalso
         have hi0 : st.i ≠ 0 := fun e => hf.termi e hk
         have hj0 : st.j = 0 := by rcases hstop with e | e; exact absurd e hi0; exact e
         obtain ⟨i', hi'⟩ : ∃ i', st.i = i' + 1 := ⟨st.i - 1, by omega⟩
         rw [hj0, hi'] at hv
-        exact (hf.segl hk).2.2 (F.col0 i' (by omega) _ v hv)
-    have hpair : pairOK S o r q ⟨st.i, st.maxI, st.j, st.maxJ, st.score⟩ = true := by
-      rw [hf.segm hlast]; exact pairOK_block S o r q _ _ _ _ hi (isegm hlast)
+        have hlay : st.layer = .u := F.col0 i' (by omega) _ v hv
+        obtain ⟨e1, e2⟩ := isegl hk
+        have e2' : st.j < st.maxJ := by
+          rcases e2 with e2 | e2
+          · exact e2
+          · rw [hlay] at e2; cases e2
+        rw [(hf.segl hk).2 (by rw [hlay]; decide), ← e1]
+        exact pairOK_left S o r q _ _ _ e2'
     have hemit : st.emit.aln.all (pairOK S o r q) = true := by
       simp only [TB.emit, List.all_cons, hpair, hf.done, Bool.and_self]
     by_cases hij : st.i ≠ st.j
@@ -149,13 +150,13 @@ theorem nwAlignT_faithful (aware : Bool) (S : Matrix) (o : Int) (r q : List Nat)
       by_cases hi0 : st.i = 0
       · obtain ⟨j', hj'⟩ : ∃ j', st.j = j' + 1 := ⟨st.j - 1, by omega⟩
         simp only [hi0, if_true]
-        rw [hj']; simp only [Cell.get]; rw [(nw_row0_l S o r q j' (by omega)).1]
+        rw [hj']; simp only [Cell.get]; rw [(nw_row0_l cross S o r q j' (by omega)).1]
         have := pairOK_left S o r q 0 0 (j' + 1) (by omega)
         simpa [vget] using this
       · have hj0 : st.j = 0 := by rcases hstop with e | e; exact absurd e hi0; exact e
         obtain ⟨i', hi'⟩ : ∃ i', st.i = i' + 1 := ⟨st.i - 1, by omega⟩
         simp only [hi0, if_false]
-        rw [hj0, hi']; simp only [Cell.get]; rw [(nw_col0_u S o r q i' (by omega)).1]
+        rw [hj0, hi']; simp only [Cell.get]; rw [(nw_col0_u cross S o r q i' (by omega)).1]
         have := pairOK_up S o r q 0 (i' + 1) 0 (by omega)
         simpa [vget] using this
     · rw [if_neg hij] at h
@@ -163,31 +164,24 @@ theorem nwAlignT_faithful (aware : Bool) (S : Matrix) (o : Int) (r q : List Nat)
       exact hemit
 
 /-- the layer-aware traceback of `NWAffine` never raises the ghost flag -/
-theorem nwAlignT_aware_tie (S : Matrix) (o : Int) (r q : List Nat) (ps : List Pair) (t : Bool)
-    (h : nwAlignT true S o r q = .ok (ps, t)) : t = false := by
+theorem nwAlignT_aware_tie (cross : Bool) (S : Matrix) (o : Int) (r q : List Nat) (ps : List Pair) (t : Bool)
+    (h : nwAlignT true cross S o r q = .ok (ps, t)) : t = false := by
   unfold nwAlignT at h
   simp only [] at h
   split at h
   · cases h
   · rename_i st hl
-    have ht := loop_tie_aware false _ S o r q _ _ _ _ st hl
+    have ht := loop_tie_aware cross false _ S o r q _ _ _ _ st hl
     simp only [] at ht
     split at h <;> (cases h; exact ht)
 
-/-- **Faithful pair scores, `NWAffine`** (after the repair of K5): every pair the model returns
-    carries the score recomputed from the letters, the matrix and the gap parameters. -/
+/-- **Faithful pair scores, `NWAffine`** (after the repairs of K5 and K1): every pair the model
+    returns carries the score recomputed from the letters, the matrix and the gap parameters. -/
 theorem nwAlign_faithful (S : Matrix) (o : Int) (r q : List Nat) (hr : r ≠ []) (hq : q ≠ [])
     (ps : List Pair) (h : nwAlign S o r q = .ok ps) : faithful S o r q ps = true := by
-  unfold nwAlign at h
-  cases hT : nwAlignT true S o r q with
-  | error e => rw [hT] at h; cases h
-  | ok res =>
-    obtain ⟨ps', t⟩ := res
-    rw [hT] at h
-    simp only [Except.map] at h
-    cases h
-    have := nwAlignT_aware_tie S o r q ps t hT
-    subst this
-    exact nwAlignT_faithful true S o r q hr hq ps hT
+  obtain ⟨t, hT⟩ := map_fst_ok h
+  have := nwAlignT_aware_tie true S o r q ps t hT
+  subst this
+  exact nwAlignT_faithful true true S o r q hr hq ps hT
 
 end Biogo.Proofs.NWFaith
